@@ -238,6 +238,169 @@ fn build_chain(r: &mut Rng) -> (OGraph, Vec<(String, T)>, BTreeMap<String, (i64,
     (b.g, inputs, env, outs)
 }
 
+/// "fold" chains.  The inference rules that decide something from `SymExpr::range()` (Equal folding),
+/// `is_positive()` / symbolic equality (Slice), `simplify()` (the driver, Reshape's remainder) or from a
+/// folded constant (Where picking a branch, Range / Expand / ConstantOfShape / Reshape / Slice sizes) are
+/// fed by scalar value expressions built from dims with TWO symbolic operands of which one may be negative:
+///   t1 ::= d | -d | 0 - d | d - k | k - d          t2 ::= t1 | t1 * d' | t1 * t1' | t1 / d' | t1 + d'
+/// optionally through ONNX Max / Min.  Dims are small (0..4, mostly 1 and 2) and symbolic, and Equal compares
+/// with the value the expression really has (or a neighbour), so that a constant folded from a too narrow
+/// range or a wrong simplification is contradicted by the run.
+fn build_fold_chain(r: &mut Rng) -> (OGraph, Vec<(String, T)>, BTreeMap<String, (i64, bool)>, Vec<String>) {
+    let mut b = ChainBuilder { g: OGraph::default(), n: 0, pool: vec![], outs: vec![] };
+    let mut env = BTreeMap::new();
+    let mut inputs = vec![];
+    let mut atoms: Vec<(String, i64)> = vec![];
+    let nin = r.range(1, 2);
+    for i in 0..nin {
+        let rank = r.range(2, 3) as usize;
+        let s: Vec<usize> = (0..rank).map(|_| *r.pick(&[0usize, 1, 1, 1, 2, 2, 2, 3, 3, 4])).collect();
+        let name = format!("x{i}");
+        let dims: Vec<Dim> = s
+            .iter()
+            .enumerate()
+            .map(|(a, d)| {
+                if r.chance(9, 10) {
+                    let nm = if r.chance(1, 3) { format!("s{d}") } else { format!("d{i}_{a}") };
+                    env.insert(nm.clone(), (*d as i64, true));
+                    Dim::Sym(nm)
+                } else {
+                    Dim::Fixed(*d as i64)
+                }
+            })
+            .collect();
+        b.g.inputs.push(ValueInfo::new(&name, onnx::FLOAT, Some(dims)));
+        let sh = b.node("Shape", &[&name], vec![]);
+        for (a, d) in s.iter().enumerate() {
+            let idx = b.konst(&T::i64_scalar(if r.chance(1, 3) { a as i64 - rank as i64 } else { a as i64 }));
+            let o = b.node("Gather", &[&sh, &idx], vec![]);
+            atoms.push((o, *d as i64));
+        }
+        inputs.push((name, T::f32(&s, r)));
+    }
+    let total = numel(&inputs[0].1.shape) as i64;
+    let rank0 = inputs[0].1.shape.len();
+
+    // t1: a dim, negated or shifted
+    let t1 = |b: &mut ChainBuilder, r: &mut Rng| -> (String, i64) {
+        let (a, v) = atoms[r.below(atoms.len())].clone();
+        let k = r.range(0, 3);
+        match r.below(8) {
+            0 => (a, v),
+            1 | 2 => (b.node("Neg", &[&a], vec![]), -v),
+            3 => {
+                let z = b.konst(&T::i64_scalar(0));
+                (b.node("Sub", &[&z, &a], vec![]), -v)
+            }
+            4 | 5 => {
+                let c = b.konst(&T::i64_scalar(k));
+                (b.node("Sub", &[&a, &c], vec![]), v - k)
+            }
+            _ => {
+                let c = b.konst(&T::i64_scalar(k));
+                (b.node("Sub", &[&c, &a], vec![]), k - v)
+            }
+        }
+    };
+    let mut terms: Vec<(String, i64)> = vec![];
+    for _ in 0..r.range(2, 3) {
+        let (x, xv) = t1(&mut b, r);
+        let (d, dv) = atoms[r.below(atoms.len())].clone();
+        let t = match r.below(10) {
+            0 => (x, xv),
+            1..=4 => {
+                if r.chance(1, 2) { (b.node("Mul", &[&x, &d], vec![]), xv * dv) } else { (b.node("Mul", &[&d, &x], vec![]), xv * dv) }
+            }
+            5 | 6 => {
+                let (y, yv) = t1(&mut b, r);
+                (b.node("Mul", &[&x, &y], vec![]), xv * yv)
+            }
+            7 if dv != 0 => (b.node("Div", &[&x, &d], vec![]), xv / dv),
+            _ => (b.node("Add", &[&x, &d], vec![]), xv + dv),
+        };
+        // occasionally through Max / Min (variadic operators: inference keeps the shape only)
+        let t = if r.chance(1, 10) {
+            let k = r.range(-1, 2);
+            let c = b.konst(&T::i64_scalar(k));
+            if r.chance(1, 2) { (b.node("Max", &[&t.0, &c], vec![]), t.1.max(k)) } else { (b.node("Min", &[&t.0, &c], vec![]), t.1.min(k)) }
+        } else {
+            t
+        };
+        terms.push(t);
+    }
+
+    let unsq = |b: &mut ChainBuilder, n: &str| -> String {
+        let ax = b.konst(&T::i64s(&[0]));
+        b.node("Unsqueeze", &[n, &ax], vec![])
+    };
+    // consumers of a scalar value (n, v)
+    let consume = |b: &mut ChainBuilder, r: &mut Rng, n: &str, v: i64, other: &(String, i64)| match r.below(7) {
+        0 | 1 if v.abs() <= 24 => {
+            let (z, one) = (b.konst(&T::i64_scalar(0)), b.konst(&T::i64_scalar(1)));
+            b.node("Range", &[&z, n, &one], vec![]);
+        }
+        2 if (other.1 - v).abs() <= 24 => {
+            let one = b.konst(&T::i64_scalar(1));
+            if r.chance(1, 2) { b.node("Range", &[n, &other.0, &one], vec![]) } else { b.node("Range", &[&other.0, n, &one], vec![]) };
+        }
+        3 if (0..=24).contains(&v) => {
+            let vn = unsq(b, n);
+            if r.chance(1, 2) {
+                b.node("ConstantOfShape", &[&vn], vec![]);
+            } else {
+                let one = b.konst(&T::new(&[], "f32", vec![1]));
+                b.node("Expand", &[&one, &vn], vec![]);
+            }
+        }
+        4 if v > 0 && total > 0 && total % v == 0 => {
+            let vn = unsq(b, n);
+            let m1 = b.konst(&T::i64s(&[-1]));
+            let tgt = if r.chance(1, 2) { b.node("Concat", &[&vn, &m1], vec![("axis", Attr::Int(0))]) } else { b.node("Concat", &[&m1, &vn], vec![("axis", Attr::Int(0))]) };
+            b.node("Reshape", &["x0", &tgt], vec![]);
+        }
+        _ => {
+            // Slice x0 along one axis with symbolic start / end
+            let (sn, en) = if r.chance(1, 2) { (unsq(b, n), unsq(b, &other.0)) } else { (unsq(b, &other.0), unsq(b, n)) };
+            let ax = b.konst(&T::i64s(&[r.below(rank0) as i64]));
+            b.node("Slice", &["x0", &sn, &en, &ax], vec![]);
+        }
+    };
+
+    let nt = terms.len();
+    for i in 0..nt {
+        let (n, v) = terms[i].clone();
+        let other = terms[(i + 1) % nt].clone();
+        // Equal against the value the expression really has, or a neighbour; then Where picks a branch
+        let c = match r.below(10) {
+            0..=5 => v,
+            6 => 0,
+            7 => -1,
+            8 => v + 1,
+            _ => 1,
+        };
+        let cn = b.konst(&T::i64_scalar(c));
+        let cond = if r.chance(1, 2) { b.node("Equal", &[&n, &cn], vec![]) } else { b.node("Equal", &[&cn, &n], vec![]) };
+        let (av, bv) = (r.range(0, 4), r.range(0, 4));
+        let (an, bn) = (b.konst(&T::i64_scalar(av)), b.konst(&T::i64_scalar(bv)));
+        let (tn, tv, fn_, fv) = if r.chance(1, 3) { (other.0.clone(), other.1, bn, bv) } else { (an, av, bn, bv) };
+        let w = b.node("Where", &[&cond, &tn, &fn_], vec![]);
+        let wv = if v == c { tv } else { fv };
+        consume(&mut b, r, &w, wv, &other);
+        if r.chance(1, 3) {
+            let op = if r.chance(1, 2) { "Less" } else { "Greater" };
+            b.node(op, &[&n, &cn], vec![]);
+        }
+        if r.chance(2, 3) {
+            consume(&mut b, r, &n, v, &other);
+        }
+    }
+    for o in &b.outs {
+        b.g.outputs.push(ValueInfo::new(o, 0, None));
+    }
+    let outs = b.outs.clone();
+    (b.g, inputs, env, outs)
+}
+
 impl ChainBuilder {
     fn push_concat(&mut self, a: &str, c: &str) -> String {
         let find = |s: &ChainBuilder, n: &str| s.pool.iter().find(|p| p.name == n).map(|p| p.vals.clone());
@@ -314,13 +477,17 @@ fn drv_shape_of(t: &SymTensor) -> Option<Result<rten_shape_inference::Constant, 
     }
 }
 
-fn run_chain(em: &mut Emit, r: &mut Rng, replay: Option<&J>) {
+fn run_chain(em: &mut Emit, r: &mut Rng, replay: Option<&J>, kind: &str) {
     let seed = match replay {
         Some(cj) => cj["replay"]["chain_seed"].as_str().and_then(|s| s.parse::<u64>().ok()).unwrap_or(0),
         None => r.next_u64(),
     };
+    let kind = match replay {
+        Some(cj) => cj["replay"]["chain_kind"].as_str().unwrap_or("chain").to_string(),
+        None => kind.to_string(),
+    };
     let mut cr = Rng(seed);
-    let (g, inputs, env, _outs) = build_chain(&mut cr);
+    let (g, inputs, env, _outs) = if kind == "fold" { build_fold_chain(&mut cr) } else { build_chain(&mut cr) };
     let env_json = J::Array(env.iter().map(|(s, (v, p))| json!({"s": s, "v": v, "pos": p})).collect());
     let Ok(model) = load(g.to_model()) else {
         return;
@@ -382,7 +549,8 @@ fn run_chain(em: &mut Emit, r: &mut Rng, replay: Option<&J>) {
             })
             .collect();
         let opname = opn.operator().name().to_string();
-        let id = em.case("chain", &opname, "chain", opn.name().unwrap_or(""), env_json.clone(), ins_json, json!({"chain_seed": seed.to_string()}));
+        let id = em.case("chain", &opname, &kind, opn.name().unwrap_or(""), env_json.clone(), ins_json,
+                         json!({"chain_seed": seed.to_string(), "chain_kind": kind}));
         em.flush();
         let (infer, imsg, so) = call_infer(opn, &sym_ins, &mut sym_gen);
         // as the driver does: cap the complexity, simplify, remember for the consumers
